@@ -28,6 +28,17 @@ Memory layout axis (both parts): the tensor handed to the code under test holds 
     (7) value, NaN pattern, the cell of a unique maximum and (same cell, non-negative patch) the
         refined coordinates equal those for the contiguous copy.  A bucket that fails only with
         the non-contiguous tensor carries the suffix ``:only-with-noncontiguous-layout``.
+Part ``dtypes``  input DTYPE axis: the maps as float32 | float64 | float16 | bfloat16 tensors (the peak
+  finders accept every floating type); (dtype, value model) drawn as ONE pair.  Besides the generic models
+  every dtype gets the models only its own resolution can represent: ``neartie`` (2-4 candidate maxima
+  differing by 1e-9..1e-13 relative for float64, by 1-4 spacings of the dtype otherwise; the true maximum
+  anywhere in row-major order, adjacent or apart), ``nearthr`` (maximum just above / just below / equal to
+  the threshold at the same relative distances) and ``tiny`` (the same maps scaled to 1e-45..1e-60 for
+  float64, threshold scaled with them).  Oracles (1)-(4) evaluated on the case's exact doubles (numpy
+  float64 = the map's own arithmetic): the reported CELL holds the map's maximum exactly; the value equals
+  it up to one float32 spacing for float64 maps (float32 outputs are documented), exactly otherwise;
+  max < thr => NaN / 0; single-map re-run; refinement=None == rough; integral keeps values / NaN pattern
+  and moves <= patch/2.  Buckets of this part end in ``:dtype=<dtype>``.
 """
 
 import numpy as np
@@ -47,7 +58,11 @@ RULE = (
     "non-trivial = valid and invalid channels are mixed or some Gaussian centre is >= 0.05 px off its "
     "cell (so that 'moves toward the centre' is a strict inequality). Both parts: the values are handed "
     "over in a drawn memory layout (contiguous / channels_last / permuted view / slice of a larger tensor / "
-    "strided / expanded), maps-part value model and layout drawn as one pair. distinct by hash of the case"
+    "strided / expanded), maps-part value model and layout drawn as one pair. part dtypes: (map dtype in "
+    "{float32,float64,float16,bfloat16}, value model) drawn as one pair, models incl. near-tied candidate maxima, "
+    "maximum just above/below/at the threshold and tiny magnitudes at the resolution of the dtype (float64: 1e-9.."
+    "1e-13 relative, 1e-45..1e-60); non-trivial = two distinct top values or maximum and threshold within 1e-2 "
+    "relative, or magnitude < 1e-15, or valid and invalid channels mixed. distinct by hash of the case"
 )
 ASSUMPTIONS = [
     "maps are finite float32 tensors with |v| <= 8; NaN/inf maps are outside 'all float maps'",
@@ -80,6 +95,15 @@ ASSUMPTIONS = [
     "a layout-dependent tie-break is only counted (class layout-changes-tie-break), not failed; refined "
     "coordinates are compared with the contiguous copy only when both start from the same cell and the "
     "patch is non-negative (tolerance TOL_INDEP)",
+    "part dtypes: case values are doubles exactly representable in the map's dtype (checked, harness error "
+    "otherwise) and the oracle compares them in float64; the threshold is a number representable in the map's "
+    "dtype (torch compares the map with the Python scalar in the map's dtype), any double for float64 maps; "
+    "outputs may have the documented float32 type or the map's dtype; a float64 maximum may be reported rounded "
+    "to float32 (tolerance one float32 spacing at the value, the denormal spacing 1.4e-45 below float32's range) "
+    "- the reported cell and the below-threshold decision are exact; float16 maps are at least 2x2 (kornia's "
+    "homography normalisation 1/(size-1+1e-14) is singular in half precision for a one-cell-wide map: "
+    "find_global_peaks(float16 Nx1 map, refinement='integral') raises LinAlgError - reduced precision x "
+    "degenerate shape, not judged); contiguous tensors only; |v| <= 8",
 ]
 
 TOL_INDEP = 1e-4  # same arithmetic alone / in a batch up to the batched 3x3 perspective solve
@@ -225,14 +249,19 @@ def _probes(case):
     return out
 
 
-def _struct(res, where, out, B, C, torch):
+def _struct(res, where, out, B, C, torch, dtypes=None):
+    """Shape / dtype of the 2-tuple.  `dtypes` (part dtypes): the floating types accepted for either
+    output - the documented float32 or the dtype of the maps; the arrays then come back as float64."""
     if not (isinstance(out, tuple) and len(out) == 2):
         res.fail(f"{where}:shape-dtype", f"expected a 2-tuple, got {type(out)}")
         return None
     pts, vals = out
-    if not (tuple(pts.shape) == (B, C, 2) and pts.dtype == torch.float32 and tuple(vals.shape) == (B, C) and vals.dtype == torch.float32):
+    ok_dt = (torch.float32,) if dtypes is None else dtypes
+    if not (tuple(pts.shape) == (B, C, 2) and pts.dtype in ok_dt and tuple(vals.shape) == (B, C) and vals.dtype in ok_dt):
         res.fail(f"{where}:shape-dtype", f"points {tuple(pts.shape)} {pts.dtype}, vals {tuple(vals.shape)} {vals.dtype} for B={B} C={C}")
         return None
+    if dtypes is not None:
+        return pm.out_to_numpy(pts, torch), pm.out_to_numpy(vals, torch)
     return pts.detach().cpu().numpy().copy(), vals.detach().cpu().numpy().copy()
 
 
@@ -240,8 +269,10 @@ def _same(a, b):
     return a.shape == b.shape and np.array_equal(a, b, equal_nan=True)
 
 
-def judge_rough(res, arr, thr, rough):
-    """Clauses (1) and (2).  Returns per-slot status dict: 'invalid' | 'ok' | 'wrong'."""
+def judge_rough(res, arr, thr, rough, sfx="", val_tol=None):
+    """Clauses (1) and (2).  Returns per-slot status dict: 'invalid' | 'ok' | 'wrong'.
+    `sfx` is appended to every bucket (part dtypes: the dtype class); `val_tol(max)` is the allowed
+    |reported value - maximum| (default: bit-exact)."""
     B, C, H, W = arr.shape
     pts, vals = rough
     status = {}
@@ -253,39 +284,39 @@ def judge_rough(res, arr, thr, rough):
             if mx < thr:
                 status[(b, c)] = "invalid"
                 if not (np.isnan(x) and np.isnan(y)):
-                    res.fail("global:below-threshold:coords-not-nan", f"(b={b},c={c}) max {float(mx)!r} < thr {thr!r} but coordinates ({x},{y})")
+                    res.fail("global:below-threshold:coords-not-nan" + sfx, f"(b={b},c={c}) max {float(mx)!r} < thr {thr!r} but coordinates ({x},{y})")
                 if not (v == 0.0):
-                    res.fail("global:below-threshold:value-not-zero", f"(b={b},c={c}) max {float(mx)!r} < thr {thr!r} but value {v!r}")
+                    res.fail("global:below-threshold:value-not-zero" + sfx, f"(b={b},c={c}) max {float(mx)!r} < thr {thr!r} but value {v!r}")
                 continue
             n_at = int((m == mx).sum())
             cls = "tied-maxima" if n_at > 1 else "unique-max"
             status[(b, c)] = "wrong"
             if np.isnan(x) or np.isnan(y):
-                res.fail("global:valid-reported-missing", f"(b={b},c={c}) max {float(mx)!r} >= thr {thr!r} but coordinates ({x},{y})")
+                res.fail("global:valid-reported-missing" + sfx, f"(b={b},c={c}) max {float(mx)!r} >= thr {thr!r} but coordinates ({x},{y})")
                 continue
             if not (x == int(x) and y == int(y) and 0 <= x < W and 0 <= y < H):
-                res.fail("global:out-of-range", f"(b={b},c={c}) coordinates ({x},{y}) for a {H}x{W} map")
+                res.fail("global:out-of-range" + sfx, f"(b={b},c={c}) coordinates ({x},{y}) for a {H}x{W} map")
                 continue
             if not (m[int(y), int(x)] == mx):
                 res.fail(
-                    f"global:max-membership:{cls}",
+                    f"global:max-membership:{cls}" + sfx,
                     f"(b={b},c={c}) reported cell (x={int(x)},y={int(y)}) holds {float(m[int(y), int(x)])!r} but the map maximum is {float(mx)!r} "
                     f"(attained {n_at}x, first at {tuple(int(i) for i in np.argwhere(m == mx)[0])[::-1]} as (x,y)); shape {H}x{W}",
                 )
             else:
                 status[(b, c)] = "ok"
-            if not (v == float(mx)):
-                res.fail("global:value", f"(b={b},c={c}) reported value {v!r}, map maximum {float(mx)!r}")
+            if not (v == float(mx) if val_tol is None else abs(v - float(mx)) <= val_tol(float(mx))):
+                res.fail("global:value" + sfx, f"(b={b},c={c}) reported value {v!r}, map maximum {float(mx)!r}")
     return status
 
 
-def judge_refined(res, arr, thr, patch, rough, status, refined, prefix="refine"):
+def judge_refined(res, arr, thr, patch, rough, status, refined, prefix="refine", sfx=""):
     """Clause (4): values, NaN pattern, half-patch bound.  Returns per-slot patch class."""
     B, C, H, W = arr.shape
     pts, vals = rough
     rpts, rvals = refined
     if not _same(rvals, vals):
-        res.fail(f"{prefix}:values", f"peak values changed by refinement: {vals.tolist()} -> {rvals.tolist()}")
+        res.fail(f"{prefix}:values" + sfx, f"peak values changed by refinement: {vals.tolist()} -> {rvals.tolist()}")
     half = patch / 2.0
     pclass = {}
     for b in range(B):
@@ -293,7 +324,7 @@ def judge_refined(res, arr, thr, patch, rough, status, refined, prefix="refine")
             st_ = status[(b, c)]
             if st_ == "invalid":
                 if not np.isnan(rpts[b, c]).all():
-                    res.fail(f"{prefix}:invalid-became-valid", f"(b={b},c={c}) is below threshold but refined coordinates are {rpts[b, c].tolist()}")
+                    res.fail(f"{prefix}:invalid-became-valid" + sfx, f"(b={b},c={c}) is below threshold but refined coordinates are {rpts[b, c].tolist()}")
                 continue
             if st_ == "wrong":
                 res.excluded += 1
@@ -311,7 +342,7 @@ def judge_refined(res, arr, thr, patch, rough, status, refined, prefix="refine")
             if not (np.isfinite(d).all() and (np.abs(d) <= half).all()):
                 key = f"{prefix}:half-patch-bound:" + ("nonneg-patch" if pc == "nonneg" else "negative-patch")
                 res.fail(
-                    key,
+                    key + sfx,
                     f"(b={b},c={c}) peak at (x={x},y={y}) value {float(vals[b, c])!r} moved by ({float(d[0]):.6g},{float(d[1]):.6g}) with patch {patch} (bound {half}); patch class {pc}",
                 )
     return pclass
@@ -634,6 +665,108 @@ def _evaluate_bumps(case, layout):
 
 
 # ------------------------------------------------------------------------------------
+# dtypes: the maps in every floating point type the peak finders accept
+
+
+def dtype_classes(res, dtype, arr, thr):
+    """Class labels of the dtype axis, from the input only.  Returns (n_valid, n_invalid, sensitive)
+    where sensitive = some map has two distinct top values, or maximum and threshold, closer than
+    1e-2 relative, or values below 1e-15 in magnitude (the classes a narrower type cannot tell apart)."""
+    B, C = arr.shape[:2]
+    n_valid = n_invalid = 0
+    sens = False
+    for b in range(B):
+        for c in range(C):
+            m = arr[b, c]
+            mx = float(m.max())
+            n_valid += mx >= thr
+            n_invalid += mx < thr
+            g = pm.top_gap_class(m)
+            if g:
+                sens = True
+                res.cls(f"dtype={dtype}|top-two-values-differ-by{g}")
+            t = pm.thr_gap_class(mx, thr)
+            if t:
+                sens = True
+                res.cls(f"dtype={dtype}|{t}")
+            if 0 < abs(mx) < 1e-15:
+                sens = True
+                res.cls(f"dtype={dtype}|magnitude" + ("<1e-44" if abs(mx) < 1e-44 else "<1e-15"))
+    return n_valid, n_invalid, sens
+
+
+def evaluate_dtypes(case):
+    import torch
+
+    from sleap_nn.inference.peak_finding import find_global_peaks, find_global_peaks_rough
+
+    res = Result()
+    dtype = case["dtype"]
+    arr = np.asarray(case["maps"], dtype=np.float64)
+    B, C, H, W = arr.shape
+    thr = float(case["thr"])
+    patch = int(case["patch"])
+    sfx = f":dtype={dtype}"
+    ok_dt = (torch.float32, getattr(torch, dtype))
+
+    def cms():
+        return pm.to_tensor(arr, dtype, torch)
+
+    def tol(v):
+        return pm.value_tol(dtype, v)
+
+    n_valid, n_invalid, sens = dtype_classes(res, dtype, arr, thr)
+    mixed = n_valid > 0 and n_invalid > 0
+    res.nontrivial = bool(sens or mixed)
+    res.cls(
+        f"dtype={dtype}",
+        f"dtype={dtype}|model={case['model']}",
+        f"thr={case['thr_kind']}",
+        f"patch={patch}",
+        "channels=mixed-valid-invalid" if mixed else ("channels=all-valid" if n_valid else "channels=all-invalid"),
+    )
+    res.n_evals = B * C
+
+    # (1) (2) in the map's own dtype: membership of the reported cell is exact, the value may be
+    # rounded to the documented float32 output type
+    out = runner.guarded(res, "global", find_global_peaks_rough, cms(), thr)
+    if out is runner.FAILED:
+        return res
+    rough = _struct(res, "global", out, B, C, torch, ok_dt)
+    if rough is None:
+        return res
+    status = judge_rough(res, arr, thr, rough, sfx=sfx, val_tol=tol)
+
+    # (3) one map alone
+    b, c = int(case["probe"][0]), int(case["probe"][1])
+    one = runner.guarded(res, "independence", find_global_peaks_rough, cms()[b : b + 1, c : c + 1], thr)
+    if one is not runner.FAILED:
+        one = _struct(res, "independence", one, 1, 1, torch, ok_dt)
+        if one is not None:
+            res.n_evals += 1
+            if not (_same(one[0][0, 0], rough[0][b, c]) and _same(one[1][0, 0], rough[1][b, c])):
+                res.fail(
+                    "independence:rough" + sfx,
+                    f"(b={b},c={c}): inside the batch {rough[0][b, c].tolist()} / {float(rough[1][b, c])!r}, alone {one[0][0, 0].tolist()} / {float(one[1][0, 0])!r}",
+                )
+
+    # (4)
+    g0 = runner.guarded(res, "refine-none", find_global_peaks, cms(), thr, None, patch)
+    if g0 is not runner.FAILED:
+        g0 = _struct(res, "refine-none", g0, B, C, torch, ok_dt)
+        if g0 is not None and not (_same(g0[0], rough[0]) and _same(g0[1], rough[1])):
+            res.fail("refine:none-equals-rough" + sfx, "find_global_peaks(refinement=None) differs from find_global_peaks_rough")
+    g1 = runner.guarded(res, "refine", find_global_peaks, cms(), thr, "integral", patch)
+    if g1 is runner.FAILED:
+        return res
+    g1 = _struct(res, "refine", g1, B, C, torch, ok_dt)
+    if g1 is None:
+        return res
+    judge_refined(res, arr, thr, patch, rough, status, g1, sfx=sfx)
+    return res
+
+
+# ------------------------------------------------------------------------------------
 # strategies
 
 
@@ -759,6 +892,27 @@ def strategy_bumps():
     return build()
 
 
+def strategy_dtypes():
+    from hypothesis import strategies as st
+
+    @st.composite
+    def build(draw):
+        # map dtype and value model are ONE choice
+        dtype, model = draw(st.sampled_from(pm.DTYPE_MODEL_PAIRS))
+        B, C, H, W, arr, thr_kind, thr = pm.draw_dtype_maps(draw, st, dtype, model)
+        return {
+            "dtype": dtype,
+            "model": model,
+            "thr_kind": thr_kind,
+            "thr": thr,
+            "patch": draw(st.sampled_from([3, 5, 5, 7, 4])),
+            "probe": [draw(st.integers(0, B - 1)), draw(st.integers(0, C - 1))],
+            "maps": arr.tolist(),
+        }
+
+    return build()
+
+
 def parts(tier):
     return [
         Part(
@@ -776,6 +930,14 @@ def parts(tier):
             budget={"quick": 500, "thorough": 60000},
             shards={"quick": 1, "thorough": 16},
             min_nontrivial={"quick": 95, "thorough": 1800},
+        ),
+        Part(
+            name="dtypes",
+            evaluate=evaluate_dtypes,
+            strategy=strategy_dtypes,
+            budget={"quick": 450, "thorough": 48000},
+            shards={"quick": 1, "thorough": 16},
+            min_nontrivial={"quick": 100, "thorough": 1500},
         ),
     ]
 
